@@ -22,8 +22,10 @@ from . import _c12_work as W
 ID = "C12"
 LEVEL = "exploration"
 RULE = (
-    "cases = seeded datasets of 36-100 pairwise distinct points (scales 1e-2..1e5, offsets up to 30 extents; 1-D, 2-D, strided, read-only "
-    "layouts; optional third coordinate), 1-3 noisy data components (noise 15-60 % of the signal so that no model scores 1), weights none or "
+    "cases = seeded datasets of 36-100 pairwise distinct points (scales 1e-2..1e5, offsets up to 30 extents; half 1-D (contiguous, strided, "
+    "read-only), half gridded 2-D non-square (clouds or jittered meshes) where every coordinate, data-component and weight-component array "
+    "draws its memory layout independently from C, Fortran, transposed view, strided, negative strides, read-only C / Fortran; row identity "
+    "= C ravel of the logical arrays; optional third coordinate), 1-3 noisy data components (noise 15-60 % of the signal so that no model scores 1), weights none or "
     "one distinct array per component; estimators Trend(1-3), Spline(damping 1e-4..1), KNeighbors(k=1 | 3), Vector, Chain (also Chain(Vector)), "
     "fresh or already fitted; cross-validators KFold, ShuffleSplit, BlockKFold, BlockShuffleSplit (shape | spacing), a thinned KFold whose "
     "training set is not the complement of the test set, and the default (cv=None), all behind a recording proxy; scorers None, r2, neg MSE / "
@@ -56,7 +58,13 @@ _Q = {  # ~40 % of the minimum over seeds 0..9 on the unchanged tree
 }
 FLOORS = {
     "quick": dict({"eval:" + k: v for k, v in _Q.items()}, distinct_nontrivial=74, schedules_with_overlapping_tasks=40,
-                  schedules_completed_out_of_split_order=85, **{"schedule:" + s: 17 for s in W.SCHEDULES}),
+                  schedules_completed_out_of_split_order=85, **{"schedule:" + s: 17 for s in W.SCHEDULES},
+                  **{"eval:score_vs_flat_reference": 28, "eval:cv_sees_rows_in_split_order": 59},
+                  # memory layouts of the 2-D gridded datasets (each array draws its layout independently)
+                  **{"class:array_layout:" + k: 12 for k in W.ARRAY_LAYOUTS}, **{"class:score_array_layout:" + k: 6 for k in W.ARRAY_LAYOUTS},
+                  **{"class:layout:2d": 24, "class:layout:2d:arrays_in_different_memory_orders": 24, "class:layout:2d:mesh": 8,
+                     "class:array_layout:coordinate:other-memory-order": 38, "class:array_layout:data:other-memory-order": 24,
+                     "class:array_layout:weights:other-memory-order": 13}),
     # ~40 % of the minimum over seeds 0 and 1 (the client= stream is deliberately not floored: it needs dask.distributed)
     "thorough": dict({"eval:" + k: v for k, v in {
         "cv_used": 2290, "default_cv_partitions": 100, "estimator_untouched": 10000, "fitted_on_train_rows": 31000, "fresh_clone": 31000,
@@ -67,7 +75,12 @@ FLOORS = {
         "splinecv_serial_equals_delayed_selection": 170, "splinecv_uses_cv": 350, "split_aligned": 1920, "split_complementary": 960,
         "split_rows_known": 1920, "split_structure": 960, "split_whole_blocks": 470, "test_rows_aligned": 31000, "train_rows_aligned": 31000,
     }.items()}, distinct_nontrivial=2860, knn1_cases=120, schedules_with_overlapping_tasks=1880, schedules_completed_out_of_split_order=3600,
-        **{"schedule:" + s: 640 for s in W.SCHEDULES}),
+        **{"schedule:" + s: 640 for s in W.SCHEDULES},
+        **{"eval:score_vs_flat_reference": 960, "eval:cv_sees_rows_in_split_order": 2290},
+        **{"class:array_layout:" + k: 640 for k in W.ARRAY_LAYOUTS}, **{"class:score_array_layout:" + k: 320 for k in W.ARRAY_LAYOUTS},
+        **{"class:layout:2d": 970, "class:layout:2d:arrays_in_different_memory_orders": 930, "class:layout:2d:mesh": 390,
+           "class:array_layout:coordinate:other-memory-order": 1600, "class:array_layout:data:other-memory-order": 1080,
+           "class:array_layout:weights:other-memory-order": 660}),
 }
 JOBS = {"quick": 1, "thorough": 16}
 CASE_TIMEOUT_S = 300
